@@ -144,6 +144,37 @@ func GenerateDegenerate(t *rapid.T, id string, avoid map[string]string) *Schema 
 		attach(pkg+".Wkt", g.bool("wktresp"))
 		g.tagf("wkt")
 	}
+	if g.oneIn(3, "dg:oddnames") {
+		// identifiers that are valid proto but degenerate for name-mangling helpers: doubled, leading and
+		// trailing underscores, all-caps, a digit after an underscore
+		odd := []string{"user__id", "id_", "_id", "a__b__c", "x_", "__x", "ID", "HTTPCode", "_9z", "z_9_", "_", "a_B_c"}
+		for _, m := range main.Messages {
+			used := map[string]bool{}
+			for _, f := range m.Fields {
+				used[f.Name] = true
+				used["json:"+strings.ToLower(JSONName(f.Name))] = true
+			}
+			for _, f := range m.Fields {
+				if !g.oneIn(3, "oddfield") {
+					continue
+				}
+				n := pick(g, odd, "oddname")
+				if used[n] || used["json:"+strings.ToLower(JSONName(n))] || JSONName(n) == "" {
+					continue
+				}
+				used[n], used["json:"+strings.ToLower(JSONName(n))] = true, true
+				for _, sv := range main.Services {
+					for _, me := range sv.Methods {
+						if me.Input == pkg+"."+m.Name {
+							me.Path = strings.ReplaceAll(me.Path, "{"+f.Name+"}", "{"+n+"}")
+						}
+					}
+				}
+				f.Name = n
+				g.tagf("odd_identifiers")
+			}
+		}
+	}
 	if g.oneIn(4, "dg:empties") {
 		add(&Message{Name: "Hollow"})
 		attach(pkg+".Hollow", g.bool("hollowresp"))
